@@ -202,7 +202,8 @@ type prover struct {
 	fieldLens      map[string]*fieldLenFacts
 	fieldLensBusy  bool
 	loadCache      map[*ssa.Function][]fieldLoad
-	lenRetCache    map[retKey][]lenRetFact
+	lenRetCache    map[retKey]lenRetEntry
+	lenRetBusy     map[retKey]bool
 	storeSets      map[string]map[*ssa.Function]bool
 	changerCache   map[string][]ssa.Instruction
 	structInvOK    map[string]bool
@@ -220,7 +221,7 @@ type prover struct {
 
 func newProver(c *Ctx) *prover {
 	p := &prover{c: c, callers: map[*ssa.Function][]ssa.CallInstruction{}, fixedLen: map[string]int64{}, twoLen: map[string]int64{},
-		invCache: map[*ssa.Function]invEntry{}, inProgress: map[*ssa.Function]bool{}, retCache: map[retKey]retEntry{}, axiomsUsed: map[string]bool{}, preCache: map[*ssa.Function]preEntry{}, preBusy: map[*ssa.Function]bool{}, retBusy: map[retKey]bool{}, loadCache: map[*ssa.Function][]fieldLoad{}, lenRetCache: map[retKey][]lenRetFact{}, storeSets: map[string]map[*ssa.Function]bool{}, changerCache: map[string][]ssa.Instruction{}, structInvOK: map[string]bool{}, configLowerOK: map[string]bool{}, sents: map[sentKey]*ssa.Const{}, sentOf: map[ssa.Value]sentKey{}}
+		invCache: map[*ssa.Function]invEntry{}, inProgress: map[*ssa.Function]bool{}, retCache: map[retKey]retEntry{}, axiomsUsed: map[string]bool{}, preCache: map[*ssa.Function]preEntry{}, preBusy: map[*ssa.Function]bool{}, retBusy: map[retKey]bool{}, loadCache: map[*ssa.Function][]fieldLoad{}, lenRetCache: map[retKey]lenRetEntry{}, lenRetBusy: map[retKey]bool{}, storeSets: map[string]map[*ssa.Function]bool{}, changerCache: map[string][]ssa.Instruction{}, structInvOK: map[string]bool{}, configLowerOK: map[string]bool{}, sents: map[sentKey]*ssa.Const{}, sentOf: map[ssa.Value]sentKey{}}
 	p.scanTables()
 	p.scanStable()
 	reps := map[string]ssa.Value{}
@@ -800,6 +801,13 @@ func (p *prover) defs(s *factSet, t term, seen map[term]bool, depth int) {
 			}
 		case *ssa.Phi:
 			// handled by induction in prove()
+		case *ssa.Call:
+			if f := x.Common().StaticCallee(); f != nil && extName(f) == "github.com/samber/lo.Map" {
+				// lo.Map returns one element per input element
+				b := lenT(x.Common().Args[0])
+				s.eq(t, b, 0)
+				p.defs(s, b, seen, depth+1)
+			}
 		default:
 			if k := tableKey(v); k != "" {
 				if n, ok := p.fixedLen[k]; ok {
@@ -938,6 +946,17 @@ func (p *prover) defs(s *factSet, t term, seen map[term]bool, depth int) {
 				l := lenT(cc.Args[0])
 				s.le(t, l, 0)
 				p.defs(s, l, seen, depth+1)
+			case "golang.org/x/exp/slices.Index", "slices.Index":
+				s.le(zeroT(), t, 1)
+				l := lenT(cc.Args[0])
+				s.le(t, l, -1)
+				p.defs(s, l, seen, depth+1)
+			case "math/bits.LeadingZeros32":
+				s.le(zeroT(), t, 0)
+				s.le(t, zeroT(), 32)
+			case "math/bits.LeadingZeros64":
+				s.le(zeroT(), t, 0)
+				s.le(t, zeroT(), 64)
 			}
 			switch anchorName(f) {
 			case "util.MaxInt":
@@ -1091,6 +1110,7 @@ type hypF struct {
 	blk   *ssa.BasicBlock // nil: unconditional
 	cond  ssa.Value       // when set: the hypothesis is "cond == truth" (the condition of the edge being followed)
 	truth bool
+	via   ssa.Instruction // when set: control passed this instruction, the conditions dominating it held
 }
 
 // edgeHyp: the condition under which control goes from pred to blk
@@ -1138,6 +1158,10 @@ func (p *prover) collectMulti(fn *ssa.Function, at ssa.Instruction, goalTerms []
 		if usable(h, at) {
 			if h.cond != nil {
 				p.condFacts(s, h.cond, h.truth, seen)
+				continue
+			}
+			if h.via != nil {
+				p.edgeFacts(s, fn, h.via, seen)
 				continue
 			}
 			s.le(h.f.a, h.f.b, h.f.c)
@@ -1569,8 +1593,12 @@ func (p *prover) proveSplitX(fn *ssa.Function, at ssa.Instruction, a, b term, c 
 	for _, phi := range phis {
 		split[phi] = true
 		okAll := true
-		for _, e := range phi.Edges {
+		for ei, e := range phi.Edges {
+			pred := phi.Block().Preds[ei]
 			h2 := append(append([]hypF{}, hyp...), hypF{f: fact{valT(phi), valT(e), 0}}, hypF{f: fact{valT(e), valT(phi), 0}})
+			// control came through pred: the conditions dominating it and the condition of the edge held
+			h2 = append(h2, hypF{via: pred.Instrs[len(pred.Instrs)-1]})
+			h2 = append(h2, edgeHyp(pred, phi.Block())...)
 			if !p.proveSplitX(fn, at, a, b, c, h2, d+1, split, direct) {
 				okAll = false
 				break
